@@ -368,6 +368,12 @@ def g5(ctx):
                   "Next::new's pipeline is %s" % order, where_of(n))
         sl = [c for c in n.calls if c.callee and c.callee.name == "schreiers_lemma"][0]
         gnew = [c for c in n.calls if c.callee and c.callee.name == "new"][0]
+        gr = strip_role(n.role_of_operand(gnew.args[1]))
+        while isinstance(gr, tuple) and gr[0] == "call" and gr[1] in C.PASS_ADAPTORS | {"collect"} and gr[3]:
+            gr = strip_role(gr[3][0])
+        ctx.check(isinstance(gr, tuple) and gr[0] == "call" and gr[1] == "schreiers_lemma", "stabiliser-from-all-schreier-generators",
+                  "the stabiliser is generated by the complete set of Schreier generators",
+                  "Next::new hands %s to the stabiliser: the Schreier generators are post-processed (filtered / thinned) before the recursion. Dropping a Schreier generator without replacing it by its quotient loses elements of the point stabiliser — contains() then rejects permutations of the generated group" % role_str(n.role_of_operand(gnew.args[1]))[:100], where_of(n, gnew.bb))
         ctx.check(role_mentions_call(n.role_of_operand(gnew.args[1]), "schreiers_lemma"), "stabiliser-from-schreier", "the stabiliser is generated by the Schreier generators",
                   "the stabiliser sub-group is not built from the Schreier generators", where_of(n, gnew.bb))
 
